@@ -172,3 +172,9 @@ func VerifC08_InPlaceCrashRerun_E() {
 	vCover("completed")
 	vAssert(err == nil, "extract from a complete store failed")
 }
+
+// VerifC08_ExtractCancelled_E: "the destination keeps its previous state" also when the extract
+// is stopped by a cancellation instead of a crash: AssembleFile under a cancellation at any
+// scheduling point never reports success for an incomplete file (the body is C07's), which is
+// what lets writeWithTmpFile decide between renaming and removing its temp file.
+func VerifC08_ExtractCancelled_E() { VerifC07_AssembleFile() }
